@@ -45,6 +45,8 @@ pub struct Ctx {
     pub n_oracle_fail: u64,
     out: String,
     distinct: std::collections::HashSet<u64>,
+    /// when set, the property prefix ("Cxx:") of oracle keys is replaced by this id
+    pub id_override: Option<String>,
 }
 
 impl Ctx {
@@ -71,7 +73,7 @@ impl Ctx {
         Ctx { tier: tier.clone(), seed, rng: Rng(seed ^ 0x5EED_0000_0000_0000), replay,
               ops: f("ops.txt"), imp: f("impl.txt"), oracle: f("oracle.txt"),
               stats: BTreeMap::new(), samples: vec![], n_ops: 0, n_oracle_fail: 0, out: out.into(),
-              distinct: Default::default() }
+              distinct: Default::default(), id_override: None }
     }
     pub fn thorough(&self) -> bool { self.tier == "thorough" }
     /// record one operation for the model driver and the implementation's canonical result
@@ -97,6 +99,11 @@ impl Ctx {
     /// `key` is the canonical identity of the failing input (matched against known findings),
     /// `replay` the lines that reproduce it.
     pub fn oracle_fail(&mut self, key: &str, what: &str, replay: &[String]) {
+        let key = match (&self.id_override, key.split_once(':')) {
+            (Some(id), Some((_, rest))) => format!("{id}:{rest}"),
+            _ => key.to_string(),
+        };
+        let key = key.as_str();
         self.n_oracle_fail += 1;
         if self.n_oracle_fail <= 200 {
             let mut rp = format!("@seed {} {}", self.seed, self.tier);
